@@ -84,6 +84,8 @@ def prepare_lean(theorem_modules, tier, need_driver=True):
             info["log"] = "missing file"
             st.props[mod] = info
             continue
+        src = strip_comments(open(path).read())
+        info["theorems"] = re.findall(r"^\s*(?:protected\s+|private\s+)?theorem\s+([\w.'«»]+)", src, flags=re.M)
         rc, out = sh(f"lake build {mod} 2>&1", cwd=LEAN)
         if rc != 0:
             info["log"] = out[-3000:]
@@ -95,8 +97,6 @@ def prepare_lean(theorem_modules, tier, need_driver=True):
             st.build_ok = False
             continue
         rc, out = sh(f"lake env lean {os.path.relpath(path, LEAN)} 2>&1", cwd=LEAN)
-        src = strip_comments(open(path).read())
-        info["theorems"] = re.findall(r"^\s*(?:protected\s+|private\s+)?theorem\s+([\w.'«»]+)", src, flags=re.M)
         for m in re.finditer(r"'([^']+)' depends on axioms: \[([^\]]*)\]", out):
             info["axioms"][m.group(1)] = [a.strip() for a in m.group(2).split(",") if a.strip()]
         for m in re.finditer(r"'([^']+)' does not depend on any axioms", out):
